@@ -60,7 +60,17 @@ func verifMsgsEqual(a, b []*VerifMsg) bool {
 // HarnessC08: a stream of two requests (shapes s1, s2) is decoded once in a single read and once cut
 // into reads at c1 (and c2 when c2 > c1): the same requests must be recognised; after a proper
 // prefix nothing is treated as an error and the bytes are retained.
-func HarnessC08(s1, s2, c1, c2 int) {
+func HarnessC08(s1, s2, c1, c2 int) { verifC08(s1, s2, c1, c2, 0) }
+
+// HarnessC08Hist: as HarnessC08, but the proxy has a past when the stream arrives: another client sent
+// the beginning of a request that ends inside a bulk argument (announced length 100, two bytes
+// delivered, in one or two reads) and then either disconnected (hist=1: the next client gets the same
+// descriptor number, as the kernel hands out the lowest free one) or is still there (hist=2); or a
+// backend reply was cut inside a bulk value (hist=3). Whatever a decoder remembers from that must not
+// change how the stream of THIS connection is framed.
+func HarnessC08Hist(s1, s2, c1, c2, hist int) { verifC08(s1, s2, c1, c2, hist) }
+
+func verifC08(s1, s2, c1, c2, hist int) {
 	stream := append(verifShape(s1), verifShape(s2)...)
 	L := len(stream)
 	if c1 < 0 {
@@ -77,6 +87,32 @@ func HarnessC08(s1, s2, c1, c2 int) {
 	ref := ha.Msgs
 
 	wb, hb, cb := verifDecodeWorld(0)
+	base := 0
+	switch hist {
+	case 1, 2:
+		old := cb
+		wb.Feed(old, []byte("*2\r\n$3\r\nget\r\n$100\r\nx"))
+		wb.Feed(old, []byte("y"))
+		verifrt.Assert(len(hb.Msgs) == 0 && old.Opened(), "prefix_of_valid_stream_never_closes")
+		if hist == 1 {
+			wb.HangUp(old)
+			verifrt.Assert(!old.Opened(), "harness_old_client_closed")
+		}
+		cb = wb.NewClient("10.0.0.2:5000")
+		if hist == 1 {
+			verifrt.Assert(cb.Fd == old.Fd, "harness_descriptor_number_reused")
+		}
+	case 3:
+		// a backend connection whose oldest request is answered by a bulk reply cut inside the value
+		wb.AddPool("A:1", false)
+		sc := EngineGlobal.ProxyPool["A:1"].Get()
+		verifrt.Assert(sc != nil, "harness_backend_connection")
+		_ = sc.WriteClusterNodes()
+		wb.RunTasks()
+		wb.RunTasks()
+		wb.Feed(wb.ByAddr["A:1"][0], []byte("$100\r\nab"))
+	}
+	base = len(hb.Msgs)
 	cuts := []int{0, c1}
 	if c2 > c1 && c2 < L {
 		cuts = append(cuts, c2)
@@ -88,10 +124,10 @@ func HarnessC08(s1, s2, c1, c2 int) {
 		verifrt.Assert(len(wb.Sent(cb)) == 0, "prefix_of_valid_stream_no_reply")
 		// bytes not yet consumed are retained: consumed + buffered == delivered
 		_, nref := VerifStrictScan(stream[:cuts[i+1]])
-		verifrt.Assert(len(hb.Msgs) == nref, "requests_recognised_as_soon_as_complete")
+		verifrt.Assert(len(hb.Msgs)-base == nref, "requests_recognised_as_soon_as_complete")
 	}
 	verifrt.ObserveInt("n", len(hb.Msgs))
-	verifrt.Assert(verifMsgsEqual(ref, hb.Msgs), "same_requests_whatever_the_segmentation")
+	verifrt.Assert(verifMsgsEqual(ref, hb.Msgs[base:]), "same_requests_whatever_the_segmentation")
 	verifrt.Assert(cb.InboundBuffered() == 0, "nothing_left_over")
 	verifrt.Cover("end", true)
 }
@@ -149,6 +185,7 @@ func HarnessC02Req(nargs, alen int) {
 }
 
 func init() {
+	verifrt.Register("HarnessC08Hist", func(p []int64) { HarnessC08Hist(int(p[0]), int(p[1]), int(p[2]), int(p[3]), int(p[4])) })
 	verifrt.Register("HarnessC08", func(p []int64) { HarnessC08(int(p[0]), int(p[1]), int(p[2]), int(p[3])) })
 	verifrt.Register("HarnessC02Req", func(p []int64) { HarnessC02Req(int(p[0]), int(p[1])) })
 }
